@@ -91,6 +91,54 @@ mod verif_x509_time {
         if let Ok(t) = r { assert!(t.map(|t| fields(&t)) == spec_gen(&b), "optional GeneralizedTime: decoded instant"); }
     }}
 
+    /// fixed-size io::Write sink (no allocation, write_all overridden so that no std loop is involved)
+    pub struct Sink { pub b: [u8; 20], pub n: usize, pub bad: bool }
+    impl io::Write for Sink {
+        fn write(&mut self, buf: &[u8]) -> io::Result<usize> { self.write_all(buf)?; Ok(buf.len()) }
+        fn write_all(&mut self, buf: &[u8]) -> io::Result<()> {
+            let mut i = 0;
+            while i < buf.len() { if self.n < 20 { self.b[self.n] = buf[i]; self.n += 1; } else { self.bad = true; } i += 1; }
+            Ok(())
+        }
+        fn flush(&mut self) -> io::Result<()> { Ok(()) }
+    }
+    //@harness time_encode_utc K fn=UtcTime::write_encoded timeout=1200
+    verif_harness!{ #[kani::unwind(22)] time_encode_utc; |y: u32, mo: u32, d: u32, h: u32, mi: u32, sec: u32| {
+        // every calendar second of 1950..=2049: the written UTCTime names the same instant and decodes back
+        assume(y >= 1950 && y <= 2049 && valid_date_time(y, mo, d, h, mi, sec));
+        let t = Time::from_parts((y as i32, mo, d, h, mi, sec)).unwrap();
+        let mut w = Sink { b: [0; 20], n: 0, bad: false };
+        UtcTime(t).write_encoded(Mode::Der, &mut w).unwrap();
+        assert!(w.n == 13 && !w.bad && UtcTime(t).encoded_len(Mode::Der) == 13, "UTCTime content is 13 octets");
+        let b = [w.b[0], w.b[1], w.b[2], w.b[3], w.b[4], w.b[5], w.b[6], w.b[7], w.b[8], w.b[9], w.b[10], w.b[11], w.b[12]];
+        assert!(spec_utc(&b) == Some((y, mo, d, h, mi, sec)), "UTCTime octets denote the same instant (fixed width, all digits, Z)");
+        // (decoding these octets back is harness time_take_from_utc: it returns from_parts(spec_utc(b)) == t)
+    }}
+    //@harness time_encode_gen K fn=GeneralizedTime::write_encoded timeout=1200
+    verif_harness!{ #[kani::unwind(22)] time_encode_gen; |y: u32, mo: u32, d: u32, h: u32, mi: u32, sec: u32| {
+        // every calendar second of the years 0..=9999
+        assume(y <= 9999 && valid_date_time(y, mo, d, h, mi, sec));
+        let t = Time::from_parts((y as i32, mo, d, h, mi, sec)).unwrap();
+        let mut w = Sink { b: [0; 20], n: 0, bad: false };
+        GeneralizedTime(t).write_encoded(Mode::Der, &mut w).unwrap();
+        assert!(w.n == 15 && !w.bad && GeneralizedTime(t).encoded_len(Mode::Der) == 15, "GeneralizedTime content is 15 octets");
+        let b = [w.b[0], w.b[1], w.b[2], w.b[3], w.b[4], w.b[5], w.b[6], w.b[7], w.b[8], w.b[9], w.b[10], w.b[11], w.b[12], w.b[13], w.b[14]];
+        assert!(spec_gen(&b) == Some((y, mo, d, h, mi, sec)), "GeneralizedTime octets denote the same instant");
+        // (decoding these octets back is harness time_take_from_gen: it returns from_parts(spec_gen(b)) == t)
+    }}
+    //@harness time_encode_varied_choice K fn=Time::encode_varied timeout=1200
+    verif_harness!{ #[kani::unwind(24)] time_encode_varied_choice; |y: u32, mo: u32, d: u32, h: u32, mi: u32, sec: u32| {
+        use bcder::encode::Values;
+        assume(y <= 9999 && valid_date_time(y, mo, d, h, mi, sec));
+        let t = Time::from_parts((y as i32, mo, d, h, mi, sec)).unwrap();
+        let utc = y >= 1950 && y <= 2049;
+        let v = t.encode_varied();
+        assert!(v.encoded_len(Mode::Der) == (if utc { 15 } else { 17 }), "UTCTime for 1950..=2049, GeneralizedTime otherwise (tag + length + content)");
+        let mut w = Sink { b: [0; 20], n: 0, bad: false };
+        v.write_encoded(Mode::Der, &mut w).unwrap();
+        assert!(!w.bad && w.b[0] == (if utc { 0x17 } else { 0x18 }) && w.b[1] == (if utc { 13 } else { 15 }) && w.n == (if utc { 15 } else { 17 }), "tag and length octets");
+    }}
+
     // ---- certificate serial numbers (20 octets, left padded) ----
     /// minimal non-negative two's-complement start index, specified independently
     fn spec_start(a: &[u8; 20]) -> usize {
